@@ -56,9 +56,10 @@ def confirm(prop, f, timeout_s):
     elif (h is not None and h.native) or getattr(f, "native_kind", None):
         import native
         nk = h.native if h is not None else f.native_kind
-        if ("native", nk) not in _PB_CACHE:
-            _PB_CACHE[("native", nk)] = native.confirm(nk, prop, f)
-        ok, info = _PB_CACHE[("native", nk)]
+        ck = ("native", nk, f.key if nk == "c11" else "")     # c11's confirmer runs the tree family that belongs to the finding
+        if ck not in _PB_CACHE:
+            _PB_CACHE[ck] = native.confirm(nk, prop, f)
+        ok, info = _PB_CACHE[ck]
         payload.update({"kind": "native:" + nk, "native": info, "solver_model": (f.detail or {}).get("smt")})
         f.confirmed = ok
     else:
